@@ -47,9 +47,6 @@ theorem mainP_syntaxOnly (env : PEnv) (orc : EvalOracles) (ok : Bool) (conf : Li
 conditions are evaluated under `-d` as they are otherwise, actions are not executed. -/
 def Quiet (hc : Bool) (c : Call) : Prop := c.mutating = false ∧ (c = .fork → hc = true)
 
-/-- Some rule tree of the configuration has a `command` condition. -/
-def confHasCommand (conf : List ConfBlock) : Bool := conf.any fun b => hasCommand b.expr
-
 theorem quiet_evalP (hc : Bool) (env : Env) (tf : Int → Option Bytes) (e : Expr) (m : Msg) (fl : MFlags)
     (h : hasCommand e = true → hc = true) : Calls (Quiet hc) (evalP env tf e m fl) := by
   refine calls_mono' (evalP_calls_of env tf e m fl) fun c hcall => ⟨hcall.evalCall.quiet, fun hf => ?_⟩
